@@ -61,6 +61,47 @@ theorem faithful_halve {t N D : Nat} (hev : t % 2 = 0) (h : FaithfulN t N D) : F
     have : 2 * D * k = D * (2 * k) := by ring
     rw [this]; exact Nat.mul_mod_right _ _
 
+/-- `t` is `N/D` rounded to the nearest integer, exact ties going up: t·D ≤ N + D/2 and N < t·D + D/2 -/
+def NearestUpN (t N D : Nat) : Prop := 2 * t * D ≤ 2 * N + D ∧ 2 * N < 2 * t * D + D
+
+/-- the rounding step decides on the parity of the floor `⌊N/D1⌋` only, and that is exactly round-to-nearest (ties up)
+    of `N/(2·D1)`: the bits below the 54-bit window never matter -/
+theorem round_step_nearest (N D1 : Nat) (hD : 0 < D1) : NearestUpN ((N / D1 + 1) / 2) N (2 * D1) := by
+  have h1 : N / D1 * D1 ≤ N := Nat.div_mul_le_self N D1
+  have h2 : N < (N / D1 + 1) * D1 := by
+    have := Nat.lt_succ_iff.2 (le_refl (N / D1))
+    exact (Nat.div_lt_iff_lt_mul hD).1 this
+  generalize N / D1 = t2 at *
+  unfold NearestUpN
+  rcases Nat.even_or_odd' t2 with ⟨k, hk | hk⟩
+  · have e : (t2 + 1) / 2 = k := by omega
+    rw [e]; subst hk
+    constructor <;> nlinarith
+  · have e : (t2 + 1) / 2 = k + 1 := by omega
+    rw [e]; subst hk
+    constructor <;> nlinarith
+
+theorem nearest_halve {t N D : Nat} (hev : t % 2 = 0) (h : NearestUpN t N D) : NearestUpN (t / 2) N (2 * D) := by
+  obtain ⟨k, hk⟩ : ∃ k, t = 2 * k := ⟨t / 2, by omega⟩
+  subst hk
+  have e : 2 * k / 2 = k := by omega
+  rw [e]
+  unfold NearestUpN at *
+  constructor <;> nlinarith [h.1, h.2]
+
+/-- nearest implies faithful-with-ties: if the exact value is within half a grid step of a grid point `T`, the result is `T` -/
+theorem NearestUpN.unique {t N D T : Nat} (hD : 0 < D) (h : NearestUpN t N D)
+    (hlo : 2 * T * D < 2 * N + D) (hhi : 2 * N < 2 * T * D + D) : t = T := by
+  unfold NearestUpN at h
+  by_contra hne
+  rcases Nat.lt_or_gt_of_ne hne with hlt | hgt
+  · have : t + 1 ≤ T := hlt
+    have : 2 * (t + 1) * D ≤ 2 * T * D := Nat.mul_le_mul_right _ (Nat.mul_le_mul_left _ this)
+    nlinarith [h.2]
+  · have : T + 1 ≤ t := hgt
+    have : 2 * (T + 1) * D ≤ 2 * t * D := Nat.mul_le_mul_right _ (Nat.mul_le_mul_left _ this)
+    nlinarith [h.1]
+
 /-! ### the 54-bit window -/
 
 theorem bitLen_bounds (d : Nat) (hd : d ≠ 0) : 2 ^ (bitLen d - 1) ≤ d ∧ d < 2 ^ bitLen d ∧ 1 ≤ bitLen d := by
@@ -177,7 +218,7 @@ theorem extractParts_spec (x : BigNat) (e2 : Int) (d1 : Nat) (below : List Nat) 
       (extractParts x e2).2 = e2 + (bitLen d1 : Int) - 53 + 31 * (x.digits.length : Int) + k ∧
       2 ^ 52 ≤ (extractParts x e2).1 ∧ (extractParts x e2).1 < 2 ^ 53 ∧
       ∀ N D1 : Nat, 0 < D1 → win d1 (sel2 x.first below) (sel3 x.first below) / 2 ^ (bitLen d1 + 8) = N / D1 →
-        FaithfulN (extractParts x e2).1 N (2 * D1 * 2 ^ k) := by
+        FaithfulN (extractParts x e2).1 N (2 * D1 * 2 ^ k) ∧ NearestUpN (extractParts x e2).1 N (2 * D1 * 2 ^ k) := by
   rw [extractParts_eq x e2 d1 below hrev]
   simp only
   rw [window_top54 d1 _ _ h1 h1b h2 h3, round_if_eq]
@@ -197,10 +238,12 @@ theorem extractParts_spec (x : BigNat) (e2 : Int) (d1 : Nat) (below : List Nat) 
     · intro N D1 hD ht
       rw [if_pos hov, Nat.shiftRight_eq_div_pow]
       have hf := round_step_faithful N D1 hD
-      rw [← ht] at hf
+      have hn := round_step_nearest N D1 hD
+      rw [← ht] at hf hn
       have hev : (t2 + 1) / 2 % 2 = 0 := by simp only [hmm] at hov; omega
-      have := faithful_halve hev hf
-      simpa [Nat.mul_comm, Nat.mul_left_comm] using this
+      have e : 2 * D1 * 2 ^ 1 = 2 * (2 * D1) := by ring
+      rw [e]
+      exact ⟨faithful_halve hev hf, nearest_halve hev hn⟩
   · refine ⟨0, by omega, ?_, ?_, ?_, ?_⟩
     · rw [if_neg hov]; simp only [hmb, hnb]; push_cast; ring
     · rw [if_neg hov]; omega
@@ -208,8 +251,11 @@ theorem extractParts_spec (x : BigNat) (e2 : Int) (d1 : Nat) (below : List Nat) 
     · intro N D1 hD ht
       rw [if_neg hov]
       have hf := round_step_faithful N D1 hD
-      rw [← ht] at hf
-      simpa using hf
+      have hn := round_step_nearest N D1 hD
+      rw [← ht] at hf hn
+      have e : 2 * D1 * 2 ^ 0 = 2 * D1 := by ring
+      rw [e]
+      exact ⟨hf, hn⟩
 
 /-! ### the window brackets the number held in the array -/
 
@@ -328,7 +374,7 @@ theorem bigBase_pow (k : Nat) : bigBase ^ k = 2 ^ (31 * k) := by
     number), and 2^52 ≤ t < 2^53. -/
 theorem extract_faithful_pos_core (x : BigNat) (hi : MantInv x) (hne : x.digits ≠ []) :
     ∃ G : Nat, (extractParts x 0).2 + 31 = (G : Int) ∧
-      FaithfulN (extractParts x 0).1 (x.val * 2 ^ 31) (2 ^ G) ∧
+      FaithfulN (extractParts x 0).1 (x.val * 2 ^ 31) (2 ^ G) ∧ NearestUpN (extractParts x 0).1 (x.val * 2 ^ 31) (2 ^ G) ∧
       2 ^ 52 ≤ (extractParts x 0).1 ∧ (extractParts x 0).1 < 2 ^ 53 := by
   cases hr : x.digits.reverse with
   | nil => simp at hr; exact absurd hr hne
@@ -352,13 +398,12 @@ theorem extract_faithful_pos_core (x : BigNat) (hi : MantInv x) (hne : x.digits 
     have ht : W / 2 ^ (bitLen d1 + 8) = x.val * bigBase / (bigBase ^ (n - 1) * 2 ^ (bitLen d1 + 8)) := by
       rw [← Nat.div_div_eq_div_mul, hdiv]
     have hF := hf (x.val * bigBase) _ hD1 ht
-    refine ⟨31 * (n - 1) + (bitLen d1 + 8) + 1 + k, ?_, ?_, hlo, hhi⟩
-    · rw [he]; push_cast; omega
-    · have e : 2 * (bigBase ^ (n - 1) * 2 ^ (bitLen d1 + 8)) * 2 ^ k = 2 ^ (31 * (n - 1) + (bitLen d1 + 8) + 1 + k) := by
-        rw [bigBase_pow]; ring
-      have e31 : bigBase = 2 ^ 31 := by decide
-      rw [e, e31] at hF
-      exact hF
+    have e : 2 * (bigBase ^ (n - 1) * 2 ^ (bitLen d1 + 8)) * 2 ^ k = 2 ^ (31 * (n - 1) + (bitLen d1 + 8) + 1 + k) := by
+      rw [bigBase_pow]; ring
+    have e31 : bigBase = 2 ^ 31 := by decide
+    rw [e, e31] at hF
+    refine ⟨31 * (n - 1) + (bitLen d1 + 8) + 1 + k, ?_, hF.1, hF.2, hlo, hhi⟩
+    rw [he]; push_cast; omega
 
 /-- ★ fractions (negative exponent branch): if the part of the array above `digits[0]` is `⌊num/den⌋` (which
     `div_chain_exact` establishes) and the array has at least four digits, then with (t, e) = `extractParts x e2`,
@@ -367,7 +412,7 @@ theorem extract_faithful_neg_core (x : BigNat) (e2 : Int) (num den : Nat) (hden 
     (hf1 : x.first < bigBase) (hall : AllLt x.digits) (htop : TopNZ x.digits) (hn4 : 4 ≤ x.digits.length)
     (hU : upper x = num / den) :
     ∃ G : Nat, (extractParts x e2).2 = e2 + 62 + (G : Int) ∧
-      FaithfulN (extractParts x e2).1 num (den * 2 ^ G) ∧
+      FaithfulN (extractParts x e2).1 num (den * 2 ^ G) ∧ NearestUpN (extractParts x e2).1 num (den * 2 ^ G) ∧
       2 ^ 52 ≤ (extractParts x e2).1 ∧ (extractParts x e2).1 < 2 ^ 53 := by
   cases hr : x.digits.reverse with
   | nil => simp at hr; rw [hr] at hn4; simp at hn4
@@ -386,11 +431,10 @@ theorem extract_faithful_neg_core (x : BigNat) (e2 : Int) (num den : Nat) (hden 
     have ht : W / 2 ^ (bitLen d1 + 8) = num / (den * bigBase ^ (n - 4) * 2 ^ (bitLen d1 + 8)) := by
       rw [← Nat.div_div_eq_div_mul, ← Nat.div_div_eq_div_mul, ← hU, hdiv]
     have hF := hf num _ hD1 ht
-    refine ⟨31 * (n - 4) + (bitLen d1 + 8) + 1 + k, ?_, ?_, hlo, hhi⟩
-    · rw [he]; push_cast; omega
-    · have e : 2 * (den * bigBase ^ (n - 4) * 2 ^ (bitLen d1 + 8)) * 2 ^ k = den * 2 ^ (31 * (n - 4) + (bitLen d1 + 8) + 1 + k) := by
-        rw [bigBase_pow]; ring
-      rw [e] at hF
-      exact hF
+    have e : 2 * (den * bigBase ^ (n - 4) * 2 ^ (bitLen d1 + 8)) * 2 ^ k = den * 2 ^ (31 * (n - 4) + (bitLen d1 + 8) + 1 + k) := by
+      rw [bigBase_pow]; ring
+    rw [e] at hF
+    refine ⟨31 * (n - 4) + (bitLen d1 + 8) + 1 + k, ?_, hF.1, hF.2, hlo, hhi⟩
+    rw [he]; push_cast; omega
 
 end JanetModel.Strtod
